@@ -1,5 +1,7 @@
 import Driver.C01
 import Driver.TabD
+import Driver.TabOracle
+import Driver.C07
 import Driver.VisD
 import Driver.WebD
 import IGVerif.Gen.Facts
@@ -10,8 +12,15 @@ def genFor (prop tier : String) (seed : Nat) : Except String (Array Case) :=
   | "C01" => pure (genC01Cases tier seed)
   | "C02" => pure (genC02Cases tier seed)
   | "C03" => pure (genC03Cases tier seed)
-  | "C04" => pure (genTabCases tier seed "c04")
+  | "C04" => pure (genTabFamily "c04" tier seed false)
+  | "C05" => pure (genTabFamily "c05" tier seed false)
+  | "C06" => pure (genTabFamily "c06" tier seed false)
+  | "C19" => pure (genTabFamily "c19" tier seed true)
+  | "C07" => pure (genC07Cases tier seed)
   | "C08" => pure (genVisCases tier seed "c08")
+  | "C09" => pure (genVisCases tier seed "c09")
+  | "C17" => pure (genC17Cases tier seed)
+  | "C20" => pure (genC20Cases tier seed)
   | "C13" => pure (genC13Cases tier seed)
   | "C14" => pure (genC14Cases (!IGVerif.Gen.converterLockCalls.isEmpty) tier seed)
   | "C15" => pure (genC15Cases tier seed)
@@ -22,8 +31,15 @@ def judgeFor (prop : String) : Except String (Case → ObsLine → Verdict) :=
   | "C01" => pure judgeParse
   | "C02" => pure judgeParse
   | "C03" => pure judgeParse
-  | "C04" => pure (judgeTab false)
+  | "C04" => pure (judgeTabWith [])
+  | "C05" => pure (judgeTabWith ["C05"])
+  | "C06" => pure (judgeTabWith ["C06"])
+  | "C19" => pure (judgeTabWith [])
+  | "C07" => pure judgeC07
   | "C08" => pure (judgeVis true)
+  | "C09" => pure (judgeVis true)
+  | "C17" => pure (judgeVis true)
+  | "C20" => pure (judgeVis true)
   | "C13" => pure judgeC13
   | "C14" => pure judgeC14
   | "C15" => pure judgeC15
